@@ -124,6 +124,12 @@ class Program:
         for r in TRANSPARENT_RE:
             if r.match(path) and args:
                 return args[0]
+        if len(args) == 2 and "PartialEq" in path:
+            from .an import mk_bin
+            if path.endswith("::eq"):
+                return mk_bin("Eq", args[0], args[1])
+            if path.endswith("::ne"):
+                return mk_bin("Ne", args[0], args[1])
         return e
 
     # ------------------------------------------------------------------ call graph
